@@ -305,6 +305,41 @@ fn check_case(case: &Case, obs: &mut Obs) -> Verdict {
         }
         execs += 2;
     }
+    // the builder with the real clock: an absolute deadline in the past reaches the algorithm, also
+    // when a (long) timeout or an earlier far deadline was configured on the same builder before it
+    if c.is_full() {
+        if let (Some(past), Ok(want)) = (Instant::now().checked_sub(Duration::from_secs(5)), capture(c, Some(0))) {
+            let os: Vec<String> = old.iter().map(|x| format!("w{}", x)).collect();
+            let ns: Vec<String> = new.iter().map(|x| format!("w{}", x)).collect();
+            let a: Vec<&str> = os.iter().map(|s| s.as_str()).collect();
+            let b: Vec<&str> = ns.iter().map(|s| s.as_str()).collect();
+            let alg = alg_of(c.alg);
+            for variant in 0..3 {
+                let what = ["deadline(past)", "timeout(1 h) then deadline(past)", "deadline(far) then deadline(past)"][variant];
+                let r = guard(|| {
+                    let mut cfg = TextDiff::configure();
+                    cfg.algorithm(alg);
+                    match variant {
+                        0 => {}
+                        1 => {
+                            cfg.timeout(Duration::from_secs(3600));
+                        }
+                        _ => {
+                            cfg.deadline(far_future());
+                        }
+                    }
+                    cfg.deadline(past);
+                    cfg.diff_slices(&a, &b).ops().to_vec()
+                });
+                execs += 1;
+                match r {
+                    Ok(o) if o == want => {}
+                    Ok(o) => return Verdict::Fail(format!("{}: TextDiffConfig with {} (real clock) gives {:?}, an expired deadline gives {:?}", name, what, o, want)),
+                    Err(p) => return Verdict::Fail(format!("TextDiffConfig with {}: {}", what, p)),
+                }
+            }
+        }
+    }
     match raw_cnt(c, &oc, &nc, Some(far_future())) {
         Ok(ev) if ev == e0 => {}
         Ok(ev) => return Verdict::Fail(format!("{}: real clock with a deadline one hour ahead gives {:?}, no deadline gives {:?}", name, ev, e0)),
@@ -432,7 +467,7 @@ impl Prop for C07 {
     const ID: &'static str = "C07";
     const LEVEL: &'static str = "fault_enumeration";
     fn rule() -> String {
-        "cases = (algorithm, old, new, ranges, entry point in {algorithms::diff_deadline, diff_slices_deadline}); for each case the number of deadline probes T is learnt with a never-expiring virtual clock and then EVERY expiry index k in 0..=T is executed (T <= 64) or {0..7, T-1, T} plus 16 generated indices (T > 64) ('executions' counts runs). Families: the shared small mixture, unrelated 50-400 item sequences over alphabets 2-6 (many probes), and the Patience anchor/gap family. Oracle per k: C01 stream validator, finish once and last, C02+C09 oracles on capture_diff_deadline, at most 4*(N+M)+16 element comparisons after expiry (counting PartialEq), k >= T and never-expiring clock => identical to no deadline; plumbing: TextDiffConfig::deadline / ::timeout / capture_diff_slices_deadline give valid scripts at every k, the ops of capture_diff_deadline when the clock expires at the first probe or never, and consult the clock whenever the direct call does; real clock: deadline in the past == expiry at probe 0, deadline one hour ahead == no deadline; wall-clock stage: unrepresentably large timeouts == no deadline (no panic), and a timeout counts from the start of the diff (a builder configured 1.7 s before use with timeout(1.5 s) still gives the exact diff of a tiny input; a mismatch must repeat 3 times). Non-trivial = T >= 2 and some expiry index changes the result; distinct = distinct serialized case.".into()
+        "cases = (algorithm, old, new, ranges, entry point in {algorithms::diff_deadline, diff_slices_deadline}); for each case the number of deadline probes T is learnt with a never-expiring virtual clock and then EVERY expiry index k in 0..=T is executed (T <= 64) or {0..7, T-1, T} plus 16 generated indices (T > 64) ('executions' counts runs). Families: the shared small mixture, unrelated 50-400 item sequences over alphabets 2-6 (many probes), and the Patience anchor/gap family. Oracle per k: C01 stream validator, finish once and last, C02+C09 oracles on capture_diff_deadline, at most 4*(N+M)+16 element comparisons after expiry (counting PartialEq), k >= T and never-expiring clock => identical to no deadline; plumbing: TextDiffConfig::deadline / ::timeout / capture_diff_slices_deadline give valid scripts at every k, the ops of capture_diff_deadline when the clock expires at the first probe or never, and consult the clock whenever the direct call does; real clock: deadline in the past == expiry at probe 0, deadline one hour ahead == no deadline, a builder on which deadline(past) is set last (alone, after timeout(1 h), after deadline(far)) == expired; wall-clock stage: unrepresentably large timeouts == no deadline (no panic), and a timeout counts from the start of the diff (a builder configured 1.7 s before use with timeout(1.5 s) still gives the exact diff of a tiny input; a mismatch must repeat 3 times). Non-trivial = T >= 2 and some expiry index changes the result; distinct = distinct serialized case.".into()
     }
     fn assumptions() -> Vec<String> {
         vec![
